@@ -39,6 +39,53 @@ class FsCfg(EmitterCfg):
     deny = EmitterCfg.deny | {"_is_historic_created_event", "_is_meta_mod"}
     max_paths = 200000
 
+    def inline(self, call, func_text, recv_cls, st):
+        if func_text.startswith("self.") and func_text[5:] in FS_SINKS:
+            return None  # a filtered hand-over to the queue: an emission point like queue_event itself
+        return super().inline(call, func_text, recv_cls, st)
+
+
+FS_SINKS: set[str] = set()  # filled by run(): methods of FSEventsEmitter that forward their event to the base queue_event iff the non-recursive filter lets it pass
+
+
+def filtered_sinks(P, cls: str = "FSEventsEmitter") -> set[str]:
+    """Methods m(event) of the emitter that are a filtered hand-over: on every path the base queue_event is called at most once, with
+    exactly m's event parameter, and it is called iff (watch is recursive or not _is_recursive_event(event)).  queue_event's override
+    is one; a helper it delegates to (possibly returning whether it forwarded) is one as well."""
+    from ..threads import ThreadCfg
+
+    F = P.cls(cls)
+    out: set[str] = set()
+    for m, fi in F.methods.items():
+        params = [a.arg for a in fi.node.args.args if a.arg != "self"]
+        if len(params) != 1 or m in ("queue_events",):
+            continue
+        evp = params[0]
+        ok, nbase = True, 0
+        try:
+            paths = Enumerator(ThreadCfg(P, follow_attrs=False, no_inline={"_is_recursive_event", "queue_event"})).run(fi, selfcls=cls)
+        except AnalysisError:
+            continue
+        for p in paths:
+            calls = [e for e in p.evs if e.kind == "call" and e.extra.get("func") in ("EventEmitter.queue_event", "super().queue_event")]
+            nbase += len(calls)
+            c = p.conds()
+            rec = c.get("self._watch.is_recursive", c.get("self.watch.is_recursive"))
+            isrec = c.get(f"self._is_recursive_event({evp})")
+            allowed = rec is True or isrec is False
+            if len(calls) > 1 or (calls and not allowed) or (not calls and allowed and p.outcome[0] != "raise"):
+                ok = False
+            for e in calls:
+                args = e.extra.get("args") or []
+                want = ["self", evp] if e.extra.get("func") == "EventEmitter.queue_event" else [evp]
+                if args != want:
+                    ok = False
+            if rec is None and isrec is None:
+                ok = False
+        if ok and nbase:
+            out.add(m)
+    return out
+
     def canon_atom(self, text, st):
         return fs_alias(text)
 
@@ -49,7 +96,8 @@ BATCH = ["events"]  # name of the batch parameter of FSEventsEmitter.queue_event
 def fs_alias(text: str) -> str:
     b = re.escape(BATCH[0])
     text = re.sub(rf"\b{b}\.pop\(0\)", "ev", text)
-    text, n = re.subn(rf"next\(iter\(\((\w+) for \1 in {b} if \1\.is_renamed and \1\.inode == ev\.inode\)\), None\)", "dst", text)
+    # the partner: the first record of the batch that is a rename with the same inode (next over a generator, with or without iter())
+    text, n = re.subn(rf"next\((?:iter\()?\((\w+) for \1 in {b} if \1\.is_renamed and (?:\1\.inode == ev\.inode|ev\.inode == \1\.inode)\)\)?, None\)", "dst", text)
     if n:
         NEXT_FORM[0] = True
     # the same partner found by a search loop over the batch that leaves at the first match: the matching element itself
@@ -593,6 +641,13 @@ def run(ctx) -> None:
     if len(fparams) < 3:
         raise AnalysisError("FSEventsEmitter.queue_events: batch parameter not found")
     BATCH[0] = fparams[2]
+    from .. import emit as _emit
+
+    FS_SINKS.clear()
+    FS_SINKS.update(filtered_sinks(P) - {"queue_event"})
+    _emit.EXTRA_SINKS.clear()
+    _emit.EXTRA_SINKS.update(FS_SINKS)
+    ctx.extra["fsevents_filtered_hand_overs"] = sorted(FS_SINKS | {"queue_event"})
     fpaths = Enumerator(FsCfg(P, {})).run(ff, selfcls="FSEventsEmitter")
     wl = find_loops(fpaths, lambda e: e.extra.get("kind") == "while" and e.text == BATCH[0])
     if not wl:
@@ -609,6 +664,8 @@ def run(ctx) -> None:
         for e in ems:
             e.args = [fs_alias(a) for a in e.args]
         C, R, N = c.get("ev.is_created"), c.get("ev.is_removed"), c.get("ev.is_renamed")
+        # a filtered hand-over that told its caller "not forwarded" (non-recursive watch, entry deeper than the root's children)
+        rejected = any(t is False and a.startswith("self.") and a.split("(")[0][5:] in FS_SINKS for a, t in c.items())
         H = c.get("self._is_historic_created_event(ev)")
         D = c.get("dst")
         st_ok = None
@@ -660,7 +717,9 @@ def run(ctx) -> None:
                 if len(mv) != 1 or len(moved) != 1:
                     problems.append(f"renamed with partner: expected exactly one moved(source, destination), found {[e.brief() for e in moved]}")
                 gens = [e for e in ems if e.kind == "G" and e.cls == "generate_sub_moved_events"]
-                if len(gens) != 1 or gens[0].args[:1] != [SRC]:
+                if rejected and not gens:
+                    pass  # the directory's own event did not pass the non-recursive filter: nothing below it would
+                elif len(gens) != 1 or gens[0].args[:1] != [SRC]:
                     problems.append("renamed with partner: synthetic sub-moved events missing or from the wrong source")
                 par = [e for e in ems if e.kind == "E" and e.cls == "DirModifiedEvent" and e.args and "os.path.dirname(" in e.args[0]]
                 if len(par) < 2:
@@ -669,7 +728,9 @@ def run(ctx) -> None:
                 problems.append("a moved event without a partner event")
             if N is True and not D and X:
                 gens = [e for e in ems if e.kind == "G" and e.cls == "generate_sub_created_events"]
-                if len(gens) != 1 or gens[0].args != [SRC]:
+                if rejected and not gens:
+                    pass
+                elif len(gens) != 1 or gens[0].args != [SRC]:
                     problems.append("moved in: synthetic sub-created events missing")
         # content / metadata changes: exactly one modified event of the item's flavour per flagged record (also for the partner)
         M, MM = c.get("ev.is_modified"), c.get("self._is_meta_mod(ev)")
@@ -773,8 +834,18 @@ def run(ctx) -> None:
                 recv = ast.unparse(n.func.value)
                 if recv in ("EventEmitter", "super()"):
                     base_calls.append((m, n))
-    ok = bool(base_calls) and all(m == "queue_event" for m, n in base_calls)
-    ctx.check(ok, RN, "base queue_event only called from the override", f"the base queue_event is called from {[m for m, n in base_calls]}: events reach the queue without passing the non-recursive filter", F.loc)
+    sinks_all = filtered_sinks(P) | {"queue_event"}
+    # a method that forwards to the base unconditionally is fine only as the second half of a filtered hand-over: every call of it,
+    # anywhere in the class, must sit inside a filtered hand-over (which established the filter for the event it passes on)
+    direct = {m for m, n in base_calls}
+    bad_callers = []
+    for r_ in sorted(direct - sinks_all):
+        for m, fi in F.methods.items():
+            for n in ast.walk(fi.node):
+                if isinstance(n, ast.Call) and isinstance(n.func, ast.Attribute) and n.func.attr == r_ and ast.unparse(n.func.value) == "self" and m not in sinks_all:
+                    bad_callers.append(f"{m} -> {r_}")
+    ok = bool(base_calls) and not bad_callers and all(m in sinks_all or any(isinstance(n2, ast.Call) and isinstance(n2.func, ast.Attribute) and n2.func.attr == m for s_ in sinks_all if s_ in F.methods for n2 in ast.walk(F.methods[s_].node)) for m in direct)
+    ctx.check(ok, RN, "base queue_event only called from the override", f"the base queue_event is called from {sorted(direct)} (unfiltered callers: {bad_callers}): events reach the queue without passing the non-recursive filter", F.loc)
     qf = F.methods.get("queue_event")
     if qf is None:
         ctx.viol(RN, "FSEventsEmitter overrides queue_event", "the filtering override is gone", F.loc)
@@ -797,8 +868,9 @@ def run(ctx) -> None:
         # the forwarded call hands over exactly (this emitter, the event)
         evp = ([a.arg for a in qf.node.args.args if a.arg != "self"] or ["event"])[0]
         for m, n in base_calls:
-            if m != "queue_event":
+            if m not in sinks_all and not [a.arg for a in F.methods[m].node.args.args if a.arg != "self"]:
                 continue
+            evp = ([a.arg for a in F.methods[m].node.args.args if a.arg != "self"] or ["event"])[0]
             recv = ast.unparse(n.func.value)
             args = [ast.unparse(a) for a in n.args]
             want = ["self", evp] if recv == "EventEmitter" else [evp]
